@@ -24,6 +24,11 @@ def chain_bodies(fb):
 
 
 def run(ck, fb):
+    _run0(ck, fb)
+    r06f(ck, fb)
+
+
+def _run0(ck, fb):
     ck.explanation = (
         'Decides only the last sentence of the property ("a request that could not be committed is answered with an error, not with '
         'success") as error discipline on the commit chain: from ConfigRoute::{set_config,del_config} through Handler<ConfigAsyncCmd> and '
@@ -171,3 +176,29 @@ def _from(b, discard_site, src_site):
         return False
     t = Taint(b, local_src=[src_site.dst])
     return bool(discard_site.args) and t.op_tainted(discard_site.args[0])
+
+
+def r06f(ck, fb):
+    ck.rule('R06f', 'the follower\'s temporary value never replaces a newer committed value: ConfigActor::set_tmp_config runs when the leader\'s answer '
+                    'for a routed write arrives, which can be AFTER the follower applied that write and a later one for the same key; the overwrite of '
+                    'an existing entry must therefore be conditional on something that tells "this entry is older than my write" (a guard on the '
+                    'stored value), not unconditional. (Structural necessary condition; which comparison is right is not decided.)')
+    b = ck.body(CA + '::set_tmp_config', 'R06f')
+    if not b:
+        return
+    from rn.facts import pl_proj
+    n = 0
+    for (i, j, st) in b.stmts():
+        d = st.get('d')
+        if not isinstance(d, dict):
+            continue
+        fs = [e.get('f') for e in pl_proj(d) if isinstance(e, dict) and 'f' in e]
+        if fs[-1:] != ['content']:
+            continue
+        n += 1
+        atoms = [a for a in cfg.guard_atoms(b, i) if not (a[0] == 'variant' and a[2] == 'Some') and a[0] != 'other']
+        ck.require(bool(atoms), 'R06f', 'set_tmp_config:overwrites-unconditionally', b.where(i),
+                   'set_tmp_config replaces the content of an existing entry without looking at it: apply(A), apply(B), then the late temporary value A '
+                   'of the routed write leaves this node serving A while every other node serves B, until the key is written again',
+                   'guarded by %s' % [cfg.fmt_atom(a) for a in atoms])
+    ck.floor('R06f', 'content overwrite sites in set_tmp_config', n, 1)
